@@ -30,8 +30,8 @@ class AppLab:
             for (sp, dp), r in zip(tuples, rs):
                 if r.kind == "R":
                     ck = pkt.parse(r.reply).seq
-                    self.ctx.claim_cookie(ck, (e.cip, e.sip, sp, dp))
-                    data.append(e.tcp(sp, dp, 2, (ck + 1) & 0xFFFFFFFF, PSH | ACK, pls[(sp + dp) % len(pls)]))
+                    if self.ctx.claim_cookie(ck, (e.cip, e.sip, sp, dp)):       # (never continue a harness session's stream)
+                        data.append(e.tcp(sp, dp, 2, (ck + 1) & 0xFFFFFFFF, PSH | ACK, pls[(sp + dp) % len(pls)]))
             rs = self.ctx.send_many(data)
             made += m
         self.ctx.case(reset=False)
